@@ -12,14 +12,6 @@ TECHNIQUE = ("stack typestate over the abstractly interpreted mutators (push / g
              "no mutation on rejecting paths), enter/exit pairing, ownership of the converter list")
 
 
-def listops(st, kinds=("append", "pop", "remove", "insert", "extend", "clear", "sort", "reverse")):
-    return [e for e in st.effects if e[0] == "listop" and e[2] in kinds]
-
-
-def conv_list_ops(st):
-    return [e for e in listops(st) if getattr(e[1], "tag", "").startswith("converters(")]
-
-
 def run(prog, tier) -> Result:
     res = Result("C12")
     res.explanation = (
@@ -35,157 +27,258 @@ def run(prog, tier) -> Result:
     cr = CaseRunner(prog, res, max_depth=8 if tier == "quick" else 12)
     mc_ci = prog.cls("MoneyConverter")
 
-    # ---- R12.1 money stack typestate
+    # The registries are evaluated on *concrete* small stacks (0, 1, 2 registered converters, all distinct objects)
+    # through the public mutators, and judged on what the list contains afterwards - whatever list operations the
+    # mutators use.  Histories (several operations in a row) are evaluated the same way.
+    from ..engine_a import run_body
+    from ..report import Violation
+    MONEY_TID = "cls:Money"
+
+    def mk_stack(c, money, n):
+        if money:
+            c.m.special_type("Money")
+            tid = MONEY_TID
+            convs = [ObjV(mc_ci, f"conv{i}") for i in range(4)]
+        else:
+            c.new_type("T", **FLAVORS["noref"])
+            tid = c.st.tfind("T")
+            convs = []
+            for i in range(4):
+                cv = ConvV(f"conv{i}")
+                cv.concrete = True
+                convs.append(cv)
+        stack = ListV(list(convs[:n]))
+        c.st.cls_fields[(c.st.tfind(tid), "_converters")] = stack
+        return ClsV(tid), convs, stack
+
+    def same_list(items, want):
+        return len(items) == len(want) and all(x is y for x, y in zip(items, want))
+
+    def run_stack(rule, site, case, body, judge, min_paths=1):
+        outs = run_body(prog, body, max_depth=12)
+        res.paths += len(outs)
+        res.functions.add(site)
+        fails = []
+        if len(outs) < min_paths:
+            fails.append(Violation(rule, site, case, "no feasible path", f"{len(outs)} paths"))
+        for o in outs:
+            r = judge(o)
+            if r is not None:
+                fails.append(Violation(rule, site, case, r[0], f"{r[1]}; outcome: {o.brief()}", list(o.trace)))
+        res.obligations += 1
+        res.evaluations += max(1, len(outs))
+        res.rules[rule] = res.rules.get(rule, 0) + 1
+        res.nontrivial_keys.add((rule, site, case))
+        if not fails:
+            res.discharged += 1
+        res.violations.extend(fails)
+
+    # ---- R12.1 Money: push / guarded pop of the top only
     reg = prog.method("MoneyMeta", "register_converter")
     rem = prog.method("MoneyMeta", "remove_converter")
+    for n in (0, 1, 2):
+        def body_reg(I, c, n=n):
+            cls, convs, stack = mk_stack(c, True, n)
+            c.st.c12 = (stack, list(stack.items), convs)
+            return I.call_function(reg, [cls, convs[3]], {})
 
-    def setup_reg(money_conv):
-        def setup(c):
-            c.new_type("M", **FLAVORS["money"])
-            conv = ObjV(mc_ci, "conv") if money_conv else ConvV("generic")
-            if not money_conv:
-                conv.is_money = False
-            return [c.cls("M"), conv], {}
-        return setup
-
-    def judge_reg(money_conv):
-        def judge(o):
-            ops = conv_list_ops(o.state)
-            if not money_conv:
-                if o.kind != "raise" or o.exc.name != "TypeError":
-                    return ("non-money converter accepted for Money", o.brief())
-                return ("mutation on a rejecting path", repr(ops)) if ops else None
+        def judge_regm(o):
+            stack, before, convs = o.state.c12
             if o.kind == "raise":
                 return (exc_sig(o), "contract: push")
-            if len(ops) != 1 or ops[0][2] != "append" or ops[0][3][0] is not o.args[1]:
-                return ("registration is not exactly one append of the converter", repr([(e[2], e[3]) for e in ops]))
+            if not same_list(stack.items, before + [convs[3]]):
+                return ("registration does not put the converter on top of the unchanged stack",
+                        f"before {before!r}, after {stack.items!r}")
             return None
-        return judge
-    cr.run("R12.1", reg, "register MoneyConverter", setup_reg(True), judge_reg(True))
-    cr.run("R12.1", reg, "register other callable", setup_reg(False), judge_reg(False))
+        run_stack("R12.1", "MoneyMeta.register_converter", f"register on a stack of {n}", body_reg, judge_regm)
 
-    def judge_rem(o):
-        st = o.state
-        ops = conv_list_ops(st)
-        top_is_conv = any(t.startswith("converter-identity") and t.endswith("=same") for t in o.trace)
-        if o.kind == "raise":
-            if ops:
-                return ("mutation on a rejecting path", repr([(e[2], e[3]) for e in ops]))
-            if top_is_conv:
-                return ("most recent converter cannot be unregistered", exc_sig(o))
+        def body_regx(I, c, n=n):
+            cls, convs, stack = mk_stack(c, True, n)
+            c.st.c12 = (stack, list(stack.items), convs)
+            other = ConvV("generic")
+            other.is_money = False
+            return I.call_function(reg, [cls, other], {})
+
+        def judge_regx(o):
+            stack, before, convs = o.state.c12
+            if o.kind != "raise" or o.exc.name != "TypeError":
+                return ("non-money converter accepted for Money", o.brief())
+            if not same_list(stack.items, before):
+                return ("mutation on a rejecting path", f"before {before!r}, after {stack.items!r}")
             return None
-        if not top_is_conv:
-            return ("a converter other than the most recent one was unregistered without error",
-                    repr([(e[2], e[3]) for e in ops]))
-        if len(ops) != 1 or ops[0][2] != "pop" or ops[0][3]:
-            return ("unregistering is not exactly one index-less pop()", repr([(e[2], e[3]) for e in ops]))
-        return None
-    cr.run("R12.1", rem, "remove converter", setup_reg(True), judge_rem, min_paths=3)
+        run_stack("R12.1", "MoneyMeta.register_converter", f"register another callable on a stack of {n}", body_regx, judge_regx)
+
+        for which in ("top", "below", "absent"):
+            if (which == "top" and n < 1) or (which == "below" and n < 2):
+                continue
+
+            def body_rem(I, c, n=n, which=which):
+                cls, convs, stack = mk_stack(c, True, n)
+                c.st.c12 = (stack, list(stack.items), convs)
+                target = {"top": lambda: stack.items[-1], "below": lambda: stack.items[0], "absent": lambda: convs[3]}[which]()
+                return I.call_function(rem, [cls, target], {})
+
+            def judge_rem(o, which=which):
+                stack, before, convs = o.state.c12
+                if which == "top":
+                    if o.kind == "raise":
+                        return ("most recent converter cannot be unregistered", exc_sig(o))
+                    if not same_list(stack.items, before[:-1]):
+                        return ("unregistering the most recent converter does not pop exactly it",
+                                f"before {before!r}, after {stack.items!r}")
+                    return None
+                if o.kind != "raise":
+                    return ("a converter other than the most recent one was unregistered without error",
+                            f"before {before!r}, after {stack.items!r}")
+                if not same_list(stack.items, before):
+                    return ("mutation on a rejecting path", f"before {before!r}, after {stack.items!r}")
+                return None
+            run_stack("R12.1", "MoneyMeta.remove_converter", f"remove {which} converter, stack of {n}", body_rem, judge_rem)
 
     # ---- R12.2 enter / exit pairing
     ent = prog.method("MoneyConverter", "__enter__")
     ext = prog.method("MoneyConverter", "__exit__")
+    for n in (0, 1):
+        def body_ctx(I, c, n=n):
+            cls, convs, stack = mk_stack(c, True, n)
+            me = convs[3]
+            got = I.call_function(ent, [me], {})
+            inside = list(stack.items)
+            r = I.call_function(ext, [me, OpaqueV("exc-type"), OpaqueV("exc"), OpaqueV("tb")], {})
+            c.st.c12 = (stack, list(convs[:n]), inside, me, got, r)
+            return r
 
-    def setup_ctx(n_extra):
-        def setup(c):
-            me = ObjV(mc_ci, "conv")
-            return [me] + [OpaqueV("excinfo")] * n_extra, {}
-        return setup
-
-    def judge_enter(o):
-        if o.kind == "raise":
-            return (exc_sig(o), "")
-        ops = conv_list_ops(o.state)
-        if len(ops) != 1 or ops[0][2] != "append" or ops[0][3][0] is not o.args[0]:
-            return ("__enter__ does not push self", repr([(e[2], e[3]) for e in ops]))
-        if o.value is not o.args[0]:
-            return ("__enter__ does not return the converter", repr(o.value))
-        return None
-    cr.run("R12.2", ent, "__enter__", setup_ctx(0), judge_enter)
-
-    def judge_exit(o):
-        ops = conv_list_ops(o.state)
-        top = any(t.startswith("converter-identity") and t.endswith("=same") for t in o.trace)
-        if o.kind == "raise":
-            return None if not ops and not top else (exc_sig(o), "exit of the innermost block must succeed")
-        if len(ops) != 1 or ops[0][2] != "pop":
-            return ("__exit__ does not pop", repr([(e[2], e[3]) for e in ops]))
-        v = o.value
-        falsy = isinstance(v, NoneV) or (isinstance(v, BoolV) and not v.val)
-        if not falsy:
-            return ("__exit__ swallows exceptions", repr(v))
-        return None
-    cr.run("R12.2", ext, "__exit__ (normal)", setup_ctx(3), judge_exit)
-    # (whether the removal depends on the exception info is decided by the paths above: the arguments are opaque,
-    # so a test on them forks, and a path that does not pop is reported)
+        def judge_ctx(o):
+            if o.kind == "raise":
+                return (exc_sig(o), "entering and leaving the innermost block must succeed")
+            stack, before, inside, me, got, r = o.state.c12
+            if not same_list(inside, before + [me]):
+                return ("__enter__ does not push self", f"inside the block: {inside!r}")
+            if got is not me:
+                return ("__enter__ does not return the converter", repr(got))
+            if not same_list(stack.items, before):
+                return ("__exit__ does not restore the stack", f"before {before!r}, after {stack.items!r}")
+            falsy = isinstance(r, NoneV) or (isinstance(r, BoolV) and not r.val)
+            if not falsy:
+                return ("__exit__ swallows exceptions", repr(r))
+            return None
+        run_stack("R12.2", "MoneyConverter.__enter__/__exit__", f"with-block on a stack of {n}", body_ctx, judge_ctx)
 
     # ---- R12.3 generic types
     greg = prog.method("QuantityMeta", "register_converter")
     grem = prog.method("QuantityMeta", "remove_converter")
     gview = prog.method("QuantityMeta", "registered_converters")
+    for n in (0, 1, 2):
+        for which in ("new", "member"):
+            if which == "member" and n < 1:
+                continue
 
-    def setup_g(c):
-        c.new_type("T", **FLAVORS["noref"])
-        return [c.cls("T"), ConvV("conv")], {}
+            def body_g(I, c, n=n, which=which):
+                cls, convs, stack = mk_stack(c, False, n)
+                c.st.c12 = (stack, list(stack.items), convs)
+                return I.call_function(greg, [cls, convs[3] if which == "new" else stack.items[0]], {})
 
-    def judge_greg(o):
-        st = o.state
-        if o.kind == "raise":
-            return (exc_sig(o), "")
-        ops = conv_list_ops(st)
-        present = [e for e in st.effects if e[0] == "contains"]
-        if not present:
-            return ("no membership guard", "")
-        is_present = present[-1][3]
-        if is_present and ops:
-            return ("registering an already registered converter mutates the list", repr([(e[2]) for e in ops]))
-        if not is_present and (len(ops) != 1 or ops[0][2] != "append" or ops[0][3][0] is not o.args[1]):
-            return ("registration is not one append", repr([(e[2], e[3]) for e in ops]))
-        return None
-    cr.run("R12.3", greg, "register (generic type)", setup_g, judge_greg, min_paths=2)
+            def judge_g(o, which=which):
+                stack, before, convs = o.state.c12
+                if o.kind == "raise":
+                    return (exc_sig(o), "")
+                want = before + [convs[3]] if which == "new" else before
+                if not same_list(stack.items, want):
+                    return ("registering an already registered converter mutates the list" if which == "member"
+                            else "registration is not one append", f"before {before!r}, after {stack.items!r}")
+                return None
+            run_stack("R12.3", "QuantityMeta.register_converter", f"register {which} converter, {n} registered", body_g, judge_g)
+        for which in ("first", "last", "absent"):
+            if which != "absent" and n < (2 if which == "first" else 1):
+                continue
 
-    def judge_grem(o):
-        ops = conv_list_ops(o.state)
-        if o.kind == "raise":
-            return None if not ops else ("mutation on a raising path", "")
-        if len(ops) != 1 or ops[0][2] != "remove" or ops[0][3][0] is not o.args[1]:
-            return ("removal is not list.remove(conv)", repr([(e[2], e[3]) for e in ops]))
-        return None
-    cr.run("R12.3", grem, "remove (generic type)", setup_g, judge_grem)
+            def body_gr(I, c, n=n, which=which):
+                cls, convs, stack = mk_stack(c, False, n)
+                c.st.c12 = (stack, list(stack.items), convs)
+                target = {"first": lambda: stack.items[0], "last": lambda: stack.items[-1], "absent": lambda: convs[3]}[which]()
+                return I.call_function(grem, [cls, target], {})
+
+            def judge_gr(o, which=which):
+                stack, before, convs = o.state.c12
+                if which == "absent":
+                    if o.kind != "raise":
+                        return ("removing an unregistered converter does not raise", o.brief())
+                    return None if same_list(stack.items, before) else ("mutation on a raising path", repr(stack.items))
+                if o.kind == "raise":
+                    return (exc_sig(o), "a registered converter can be removed")
+                want = before[1:] if which == "first" else before[:-1]
+                if not same_list(stack.items, want):
+                    return ("removal does not take out exactly the given converter", f"before {before!r}, after {stack.items!r}")
+                return None
+            run_stack("R12.3", "QuantityMeta.remove_converter", f"remove {which} converter, {n} registered", body_gr, judge_gr)
+
+    def body_view(I, c):
+        cls, convs, stack = mk_stack(c, False, 3)
+        v = I.call_function(gview, [cls], {})
+        c.st.c12 = (stack, list(stack.items), I.models.iterate(v, None))
+        return v
 
     def judge_view(o):
         if o.kind == "raise":
             return (exc_sig(o), "")
-        v = o.value
-        src = getattr(v, "reversed_of", None)
-        if src is None or not getattr(src, "tag", "").startswith("converters("):
-            return ("registered_converters is not the reversed list", repr(v))
-        if conv_list_ops(o.state):
+        stack, before, seen = o.state.c12
+        if seen is None or not same_list(seen, list(reversed(before))):
+            return ("registered_converters is not the reversed list", repr(seen))
+        if not same_list(stack.items, before):
             return ("view mutates the list", "")
         return None
-    cr.run("R12.3", gview, "registered_converters", lambda c: (setup_g(c)[0][:1], {}), judge_view)
+    run_stack("R12.3", "QuantityMeta.registered_converters", "three registered converters", body_view, judge_view)
 
-    # conversion loop: iterates the reversed view, first non-None result wins
+    # conversion consults the registered converters most-recent-first and the first non-None result wins - also after a
+    # history of registrations and removals (a cached view must not go stale)
     ea = prog.method("Quantity", "equiv_amount")
 
-    def judge_loop(o):
-        st = o.state
-        loops = [e for e in st.effects if e[0] == "loop-iter"]
-        calls = [e for e in st.effects if e[0] == "convcall"]
-        if calls:
-            it = loops[-1][1] if loops else None
-            src = getattr(it, "reversed_of", None)
-            if src is None or not getattr(src, "tag", "").startswith("converters("):
-                return ("converters are not consulted most-recent-first", repr(it))
-            if calls[-1][2] is not o.args[0] or not isinstance(calls[-1][3], UnitV) or \
-                    st.same_unit(calls[-1][3].uid, o.args[1].uid) is not True:
-                return ("converter called with other arguments than (quantity, target unit)", repr(calls[-1][2:4]))
-            got_amount = any(t == "conv(self)=amount" for t in o.trace)
-            if got_amount:
-                if o.kind != "return" or not isinstance(o.value, Num) or not conv_atoms(st.norm(o.value.rf)):
-                    return ("first non-None converter result is not returned", o.brief())
+    def consulted(st, since):
+        return [e[1] for e in st.effects[since:] if e[0] == "convcall"]
+
+    def history(ops):
+        def body(I, c):
+            cls, convs, stack = mk_stack(c, False, 0)
+            q = c.qty("self", c.unit("us", "T"))
+            u = c.unit("uo", "T")
+            c.st.distinct_units("us", "uo")
+            log = []
+            for op, i in ops:
+                if op == "reg":
+                    I.call_function(greg, [cls, convs[i]], {})
+                elif op == "rem":
+                    I.call_function(grem, [cls, convs[i]], {})
+                else:
+                    since = len(c.st.effects)
+                    r = I.call_function(ea, [q, u], {})
+                    log.append((list(stack.items), consulted(c.st, since), r))
+            c.st.c12 = log
+            return NONE
+        return body
+
+    def judge_history(o):
+        if o.kind == "raise":
+            return (exc_sig(o), "history of registrations raised")
+        for registered, seen, r in o.state.c12:
+            want = list(reversed(registered))
+            if not same_list(seen, want[:len(seen)]):
+                return ("converters are not consulted most-recent-first over the currently registered ones",
+                        f"registered {registered!r}, consulted {seen!r}")
+            got_amount = isinstance(r, Num)         # a converter's amount, or the units turned out to be equal
+            if len(seen) < len(want) and not got_amount:
+                return ("conversion gives up before all registered converters were consulted", f"consulted {seen!r} of {want!r}")
+            if isinstance(r, NoneV) and len(seen) != len(want):
+                return ("None although a converter was not consulted", repr(seen))
         return None
-    cr.run("R12.3", ea, "conversion loop", qty_and_unit_same_type("noref"), judge_loop, min_paths=3)
+    H = [
+        [("reg", 0), ("cv", 0)],
+        [("reg", 0), ("reg", 1), ("cv", 0), ("rem", 1), ("cv", 0)],
+        [("reg", 0), ("reg", 1), ("cv", 0), ("rem", 1), ("rem", 0), ("reg", 2), ("reg", 1), ("cv", 0)],
+        [("reg", 0), ("reg", 1), ("cv", 0), ("rem", 0), ("cv", 0), ("reg", 0), ("cv", 0)],
+    ]
+    for i, ops in enumerate(H):
+        run_stack("R12.3", "Quantity.equiv_amount", "history " + " ".join(f"{op}{j}" if op != "cv" else "convert" for op, j in ops),
+                  history(ops), judge_history, min_paths=2)
 
     # ---- R12.5 a money converter never returns None
     from .c11 import mk_converter, _date
@@ -266,7 +359,7 @@ def run(prog, tier) -> Result:
     res.ob("R12.4", "quantity", "converter list never returned by reference", not leaks, str(leaks),
            sig="converter list leaked", nontrivial=False)
 
-    res.require("R12.1", 3)
+    res.require("R12.1", 10)
     res.require("R12.2", 2)
-    res.require("R12.3", 4)
+    res.require("R12.3", 12)
     return res
